@@ -26,7 +26,8 @@ NOTE = "Trusts refmodel.RefGraph (identity by id() of objects kept alive) and sn
 TECHNIQUE = "deterministic simulation: invariant monitoring on delivered snapshots vs reference graph"
 
 WATCHES = ("depth", "ctx", "out", "[depth, ctx]", "[ctx, depth]", "{'w': depth}", "{'v': ctx}", "(depth, 1)", "(ctx, 2)",
-           "str(depth) + 'x'", "str(depth) + 'y'", "list(ctx)", "dict(ctx)", "G_HOST", "P(1, 2)", "P(3, 4)")
+           "str(depth) + 'x'", "str(depth) + 'y'", "list(ctx)", "dict(ctx)", "G_HOST", "P(1, 2)", "P(3, 4)",
+           "depth / 4", "depth * 1.5", "depth / 8", "G_HOST / 3", "float(depth) + 0.25", "depth + 100000", "G_HOST * 7")
 
 
 def generate(seed, tier):
